@@ -57,6 +57,8 @@ structure Prims where
   other : Op → V → V → W → Except E V × W
   /-- one-operand opcodes on non-method path (`length`, `bnot` on a number) -/
   unary : Op → V → W → Except E V × W
+  /-- `janet_getindex(ds, index)` (`JOP_GET_INDEX`) -/
+  getIndex : V → Nat → W → Except E V × W
 
 /-- computations with effects on the world; the world is kept when an error is raised -/
 def M (P : Prims) (α : Type) : Type := P.W → Except P.E α × P.W
@@ -282,6 +284,7 @@ def step (i : Instr) (f : Frame P) : Option (M P (Step P)) :=
   | .jumpIfNotNil => some (cont (if P.isNil (getSlot P f i.A) then next P f else jumpBy P f i.ES))
   | .length | .bnot =>
     some (M.bind (P.unary i.op (getSlot P f i.E)) fun v => cont (next P (setSlot P f i.A v)))
+  | .getIndex => some (M.bind (P.getIndex (getSlot P f i.B) i.C) fun v => cont (next P (setSlot P f i.A v)))
   | op =>
     match immBase op with
     | some _ => some (M.bind (immop P op (getSlot P f i.B) i.CS) fun v => cont (next P (setSlot P f i.A v)))
